@@ -6,6 +6,7 @@ import re
 
 HERE = os.path.dirname(os.path.abspath(__file__))
 MARK = "<!-- seeded-table -->"
+END = "<!-- /seeded-table -->"
 
 
 def first_line(notes, default=""):
@@ -30,14 +31,22 @@ for d in sorted(glob.glob(os.path.join(HERE, "seeded", "C*_*"))):
     files = sorted(set(re.findall(r"^\+\+\+ b/(\S+)", diff, re.M)))
     hunk = re.findall(r"^@@.*@@ ?(.*)$", diff, re.M)
     where = (files[0].replace("npstructures/", "") if files else "?") + (": " + hunk[0].strip()[:60] if hunk and hunk[0].strip() else "")
-    rows.append(f"| {m['id']} | {where} | {verdict} | {by} | {c.get('exit', '-')} |")
+    po = os.path.join(d, "proof_only.json")
+    pv = "-"
+    if os.path.exists(po):
+        pj = json.load(open(po))
+        pv = "refuted obligation reported" if pj.get("exit") == 1 else ("undecided only" if "undecided=0 " not in pj.get("summary", "") else "not noticed")
+    rows.append(f"| {m['id']} | {where} | {verdict} | {by} | {c.get('exit', '-')} | {pv} |")
 
-table = "\n".join(["", MARK, "", "| seeded change | where | result of `./check <property>` (quick) | reported by | exit |",
-                   "|---|---|---|---|---|"] + rows + [""])
+table = "\n".join([MARK, "", "| seeded change | where | result of `./check <property>` (quick) | reported by | exit | proofs alone (`--no-bounded`) |",
+                   "|---|---|---|---|---|---|"] + rows + ["", END])
 path = os.path.join(HERE, "DESIGN.md")
 s = open(path).read()
-if MARK in s:
-    s = s[: s.index(MARK) - 1]
-s = s.rstrip("\n") + "\n" + table
+if MARK in s and END in s:
+    s = s[: s.index(MARK)] + table + s[s.index(END) + len(END):]
+elif MARK in s:
+    s = s[: s.index(MARK)] + table + "\n"
+else:
+    s = s.rstrip("\n") + "\n\n" + table + "\n"
 open(path, "w").write(s)
 print(f"{len(rows)} seeded changes tabulated")
